@@ -16,7 +16,7 @@ CLAIMS = {
         ref="DESIGN.md §4 C01"),
     "C02": dict(
         tech="static analysis: push/pop typestate through the wrapper (one context for parameters, body and return), argument-forwarding and parameter-kind exhaustiveness checks (ast + CFG)",
-        text="Decides that parameters, body and return value are judged in one and the same binding context, forwarded unchanged, with synthetic signatures covering all five parameter kinds; the exists-assignment equivalence is value-level and not decided. Also: wrapping of a dataclass's __init__ is skipped only on the strength of the class's own __init__ (no inherited lookup). Also: push / pop balance and no suspension inside a context around every wrapped call (C05's clauses), so that a call's checks see that call's frame. Also: apply_defaults between bind and push. Within one annotation axes are matched left to right (C01.4).",
+        text="Decides that parameters, body and return value are judged in one and the same binding context, forwarded unchanged, with synthetic signatures covering all five parameter kinds; the exists-assignment equivalence is value-level and not decided. Also: wrapping of a dataclass's __init__ is skipped only on the strength of the class's own __init__ (no inherited lookup). Also: push / pop balance and no suspension inside a context around every wrapped call (C05's clauses), so that a call's checks see that call's frame. Also: apply_defaults between bind and push. Within one annotation axes are matched left to right (C01.4). The parameter-check signature is derived from the final full signature.",
         ref="DESIGN.md §4 C02"),
     "C03": dict(
         tech="static analysis: constant folding of the dtype tables, agreement of three export lists, documented hierarchy (docs/api/array.md) vs folded sets, comparison-operator check (ast)",
@@ -48,19 +48,19 @@ CLAIMS = {
         ref="DESIGN.md §4 C09"),
     "C10": dict(
         tech="static analysis: frame condition (complete write set) of the AST transformer, visitor surface, traversal and location-copy checks, template folding and re-parsing (ast)",
-        text="A frame condition over JaxtypingTransformer, hence over all programs: the only writes to a visited tree are one import insertion after docstring/__future__, decorator_list.insert(0) on classes, decorator_list.append on functions; copy_location direction; generic_visit on every path; fresh decorator per site; pipeline order. Also: Typechecker.lookup entries are never removed.",
+        text="A frame condition over JaxtypingTransformer, hence over all programs: the only writes to a visited tree are one import insertion after docstring/__future__, decorator_list.insert(0) on classes, decorator_list.append on functions; copy_location direction; generic_visit on every path; fresh decorator per site; pipeline order. Also: Typechecker.lookup entries are never removed. The decorator table holds its entries strongly.",
         ref="DESIGN.md §4 C10"),
     "C11": dict(
         tech="static analysis: control dependence of loader construction on should_instrument, predicate truth-table vs the statement, install/uninstall object identity, checker dataflow finder->loader->transformer (ast + CFG)",
-        text="Decides the predicate shape (equality or prefix with the dot separator), that instrumentation is control-dependent on it, install/uninstall pairing and per-install checker flow, that the configured names reach the finder unchanged and a possibly shared name list is never mutated in place, and the two front ends' wiring; nothing but install_import_hook (or an installer of the same shape) puts a finder on sys.meta_path; the pytest plugin never uninstalls a hook kept in a module-level variable. Also: the pytest plugin imports nothing named on the command line before the hook is installed; the typechecker string is hashed without lossy normalisation (the hash keys the decorator lookup).",
+        text="Decides the predicate shape (equality or prefix with the dot separator), that instrumentation is control-dependent on it, install/uninstall pairing and per-install checker flow, that the configured names reach the finder unchanged and a possibly shared name list is never mutated in place, and the two front ends' wiring; nothing but install_import_hook (or an installer of the same shape) puts a finder on sys.meta_path; the pytest plugin never uninstalls a hook kept in a module-level variable. Also: the pytest plugin imports nothing named on the command line before the hook is installed; the typechecker string is hashed without lossy normalisation (the hash keys the decorator lookup). The name predicate is not a bare prefix test against the list and not an unescaped regex; the decorator table keeps its entries (C10.6).",
         ref="DESIGN.md §4 C11"),
     "C12": dict(
         tech="static analysis: entry-value flag typestate (value at every exit = value at entry, incl. BaseException edges, re-entrancy via call-graph dispatch edges), class-object store census (ast + CFG + call graph)",
-        text="Decides that the flatten-mode flag and the '?' label have, at every exit of every function that sets them, the value they had on entry; that the context stack is balanced (C05.1); that annotation classes are immutable after construction; no check-time shared writes; a failed check leaves no binding behind; loading a pickled annotation goes through no process-wide mutable table.",
+        text="Decides that the flatten-mode flag and the '?' label have, at every exit of every function that sets them, the value they had on entry; that the context stack is balanced (C05.1); that annotation classes are immutable after construction; no check-time shared writes; a failed check leaves no binding behind; loading a pickled annotation goes through no process-wide mutable table. A hook instruments exactly the named packages (C11.2).",
         ref="DESIGN.md §4 C12"),
     "C13": dict(
         tech="static analysis: freshness (alias vs live top-of-stack) of the bindings reported on error paths, handler order for AnnotationError, stage wiring and cause-polarity truth table (ast + CFG + call graph)",
-        text="Decides that reported bindings denote the live top of the stack, AnnotationError handlers precede Exception handlers around both checks, parameter/return messages are wired to the right stage and raise TypeCheckError, cause polarity per raise site, blame in the same context, no leaked flatten flag / leaf label, no blame data memoised under a lossy rendering of the signature, the blame helper stops probing at the first failing parameter, a failed check leaves no binding that a later message would list; which parameter is blamed is otherwise value-level and not decided. Also: the argument table has the defaults applied (apply_defaults between bind and push), so a {name} axis naming an omitted parameter is not reported as misuse.",
+        text="Decides that reported bindings denote the live top of the stack, AnnotationError handlers precede Exception handlers around both checks, parameter/return messages are wired to the right stage and raise TypeCheckError, cause polarity per raise site, blame in the same context, no leaked flatten flag / leaf label, no blame data memoised under a lossy rendering of the signature, the blame helper stops probing at the first failing parameter, a failed check leaves no binding that a later message would list; which parameter is blamed is otherwise value-level and not decided. Also: the argument table has the defaults applied (apply_defaults between bind and push), so a {name} axis naming an omitted parameter is not reported as misuse. The parameter check and the blame checkers are built from the final full signature (C02.3).",
         ref="DESIGN.md §4 C13"),
     "C14": dict(
         tech="static analysis: interprocedural may-raise census (only ValueError from construction), guard-dominance for partial operations on the user's spec, modifier-loop and legality-matrix extraction vs the documented one (ast + CFG)",
@@ -68,11 +68,11 @@ CLAIMS = {
         ref="DESIGN.md §4 C14"),
     "C15": dict(
         tech="static analysis: reaching-definition and order agreement in the nesting branch, union/TypeVar table, scalar-ladder prefix agreement, lazy aliases vs docs code block (ast)",
-        text="Decides agreement clauses only: nested dims/dim_str concatenated outer-first with index_variadic shifted by the outer length, dtype intersection, ValueError on double variadic/empty intersection; every union member built through _make_array with the same category/spec (a member passed on raw is a witness); TypeVar table; scalar ladder (incl. the dim-kind table of the rank-0 test over all six kinds of dim objects); aliases equal the documented definitions. Also: no returned field is computed from the outer dims before the nesting merge without being recomputed; for Any the array-type stage rejects exactly when shape or dtype is missing.",
+        text="Decides agreement clauses only: nested dims/dim_str concatenated outer-first with index_variadic shifted by the outer length, dtype intersection, ValueError on double variadic/empty intersection; every union member built through _make_array with the same category/spec (a member passed on raw is a witness); TypeVar table; scalar ladder (incl. the dim-kind table of the rank-0 test over all six kinds of dim objects); aliases equal the documented definitions. Also: no returned field is computed from the outer dims before the nesting merge without being recomputed; for Any the array-type stage rejects exactly when shape or dtype is missing. The scalar-kind prefix test is asked of the dtype name itself.",
         ref="DESIGN.md §4 C15"),
     "C16": dict(
         tech="static analysis: '?'-label typestate with guard-correlated product states and re-entrancy (call-graph dispatch edges), sibling agreement of treepath prefixing, label-template key disjointness (ast + CFG)",
-        text="Decides label ownership (a clear only after this activation's own set, restore instead of constant reset where re-entrant), identical treepath prefixing for single and variadic dims, key disjointness of the label template, the two AnnotationError conditions, that the label only ever builds keys (labelled keys are never taken apart) and that the leaves list has one source (positions are labels). Also: the PyTree check site restores every memo on every failing exit (per-leaf '?' sizes included).",
+        text="Decides label ownership (a clear only after this activation's own set, restore instead of constant reset where re-entrant), identical treepath prefixing for single and variadic dims, key disjointness of the label template, the two AnnotationError conditions, that the label only ever builds keys (labelled keys are never taken apart) and that the leaves list has one source (positions are labels). Also: the PyTree check site restores every memo on every failing exit (per-leaf '?' sizes included). The vendored typeguard's check_union moves on to the next member on TypeError only.",
         ref="DESIGN.md §4 C16"),
     "C17": dict(
         tech="static analysis: information-flow census of every use of the checked value (only isinstance / hasattr / .shape / .dtype / forwarding) in the check functions and wrappers (ast def-use)",
